@@ -503,7 +503,7 @@ def closed(e):
     if k == "T":
         return e[1].get("end", "\n") == "\n"
     if k == "RULE":
-        return not e[1].get("title") or e[1].get("end", "\n") == "\n"
+        return e[1].get("end", "\n") == "\n"
     if k == "PBAR":
         return False
     if k in ("CON",):
@@ -545,8 +545,8 @@ def domain(e, opts, console):
 
     def join(r):
         nonlocal res
-        if r == "out" or res == "out":
-            res = "out"
+        if r == "out" or res == "out" or r.startswith("floor:"):
+            res = "out"  # (a min_width floor is only accounted for when the table is the root)
         elif r == "f23" or res == "f23":
             res = "f23"
         elif r == "rz":
@@ -559,7 +559,7 @@ def domain(e, opts, console):
     if k in ("PAD", "PANEL", "TREE", "BAR", "PBAR"):
         return "in"
     if k == "RULE":
-        return "out" if opts.get("overflow") == "ignore" or e[1].get("end", "\n") not in ("\n", "") else "in"
+        return "out" if e[1].get("end", "\n") not in ("\n", "") else "in"
     if k in ("STY", "CAST", "OPQ"):
         return domain(e[1], opts, console)
     if k == "CON":
@@ -581,9 +581,11 @@ def domain(e, opts, console):
             d = o.get(key)
             if d is not None and (eff_overflow(d, opts) == "ignore" or d.get("end", "\n") != "\n"):
                 return "out"
-        for co, _h, _f, _cs in cols:
-            if co.get("width") is not None or co.get("min_width") is not None or co.get("no_wrap", False):
-                return "out"
+        if any(co.get("width") is not None or co.get("min_width") is not None or co.get("no_wrap", False) for co, _h, _f, _cs in cols):
+            # columns that are not free to wrap: inside the domain when the first-pass widths of the columns that may not shrink plus
+            # one cell per column that may fit the width on offer, and no min_width binds (C07 width_fits_general); `w` is needed
+            floor = table_general(e, console, getattr(console, "_verif_w", None))
+            return "in" if floor == 0 else ("out" if floor is None else "floor:%d" % floor)
         return "in"  # (Dom also asks an explicit Table(width) for one cell per column; no counterexample known: evaluated everywhere)
     if k == "COLS":
         d = e[1].get("title")
@@ -593,6 +595,32 @@ def domain(e, opts, console):
             return "out"  # Columns(width=0): as many zero-width columns as there are cells; every one still gets a cell (witness in Props/C01.lean)
         return "in"
     raise ValueError(k)
+
+
+def table_general(e, console, w):
+    """for a table with columns that are not free to wrap, rendered with `w` cells available: None when the budget of C07's
+    width_bound_general is not met (or a ratio is active, or w is unknown), else `floorSum` — the table may be that much wider than w.
+    Computed on the REAL table: first-pass column measurements, Table._extra_width, Table._get_padding_width."""
+    if w is None or e[0] != "TABLE" or not e[2]:
+        return None
+    o, cols = e[1], e[2]
+    expands = o.get("expand", False) or o.get("width") is not None
+    if expands and any(co.get("ratio") for co, _h, _f, _cs in cols):
+        return None
+
+    def go():
+        t = build(e)
+        max_width = (t.width if t.width is not None else w) - t._extra_width
+        need = 0
+        for col in t.columns:
+            m = t._measure_column(console, col, max_width).maximum or 1
+            need += m if (col.width is not None or col.no_wrap) else 1
+        if need > max_width:
+            return None
+        return sum(col.min_width + t._get_padding_width(col._index) for col in t.columns if col.min_width is not None and col.width is None)
+
+    r = guarded(go)
+    return None if isinstance(r, str) else r
 
 
 def ratio_zero_table(e):
@@ -740,7 +768,7 @@ def gen_pad(rng):
     return rng.choice([(0, 0, 0, 0), (0, 1, 0, 1), (1, 1, 1, 1), (0, 2, 0, 0), (0, 0, 1, 3), (1, 2, 0, 1), (0, 3, 0, 2)])
 
 
-TITLES = [None, None, "T", "hello title", "あ̀x", "two\nlines", "a b"]
+TITLES = [None, None, "T", "hello title", "あ̀x", "two\nlines", "a b", "tab\there", "nb\xa0sp x", "a rather long panel title that will not fit a narrow panel"]
 
 
 STRS = ["", "plain str", "a [bold]marked[/bold] up str", "emoji :smiley: code", "日本語 str 42", "two\nlines True", "x" * 17, "[red]r[/red] [b]b[/b]"]
@@ -762,6 +790,8 @@ def gen_leaf(rng):
             o["align"] = rng.choice(["left", "center", "right"])
         if rng.random() < 0.25:
             o["title_styled"] = True
+        if rng.random() < 0.1:
+            o["end"] = ""
         return ("RULE", o)
     if r < 0.88:
         size = rng.choice([1, 10, 100])
@@ -861,7 +891,9 @@ def gen_tree(rng, d):
             o["title"] = t
             if rng.random() < 0.5:
                 o["title_align"] = rng.choice(["left", "center", "right"])
-            if rng.random() < 0.25:
+            # the spans of a styled title are not modelled (PanelOpts.title is the plain text): they only show when an over-long line
+            # is cropped exactly at a zero-width character, so styled titles are generated without zero-width characters
+            if rng.random() < 0.25 and all(char_width(ch) > 0 for ch in t):
                 o["title_styled"] = True
         if rng.random() < 0.35:
             o["expand"] = False
